@@ -19,7 +19,8 @@ if st:
 sh("git -C /repo apply %s/patch.diff" % sd, check=True)
 det = {}
 try:
-    for p in ["C%02d" % i for i in range(1, 21)]:
+    # SEED_PROPS: restrict the official pass to the listed properties (the own one and those a probe_all run on a scratch copy flagged)
+    for p in (os.environ["SEED_PROPS"].split() if os.environ.get("SEED_PROPS") else ["C%02d" % i for i in range(1, 21)]):
         r = sh("bin/check %s quick" % p, "/verif")
         fails = sorted(set(re.findall(r"FAIL (.+?) :: ", r.stdout)))
         if r.returncode != 0 or fails:
@@ -39,7 +40,7 @@ meta = {
         "suite_with_patch": ev["suite_with_patch"],
         "demo_fails_with_patch": ev["with_patch_and_demo"]["failed"],
         "demo_passes_without_patch": not [f for f in ev["demo_only"]["failed"] if f != "beacon::encode_decode_cmd"],
-        "what_i_ran": "tools/eval_seed.py %s --no-checks in the scratch worktree (suite with patch; patch+demo: demo fails; demo alone passes); then tools/save_seed2.py: git -C /repo apply patch.diff; bin/check Cxx quick for all 20 properties; git -C /repo checkout -- ." % pid,
+        "what_i_ran": "tools/eval_seed.py %s --no-checks in the scratch worktree (suite with patch; patch+demo: demo fails; demo alone passes); then tools/save_seed2.py: git -C /repo apply patch.diff; bin/check Cxx quick for %s; git -C /repo checkout -- ." % (pid, ("the properties that tools/probe_all.py (all 20 rule sets on a scratch copy with the patch) flagged, plus the own one: " + os.environ["SEED_PROPS"]) if os.environ.get("SEED_PROPS") else "all 20 properties"),
     },
     "detected_by": det,
     "detected_by_own_property": pid in det,
